@@ -331,6 +331,8 @@ pub struct Ctx {
     /// C17: every pair is wrapped into a `c17_case`
     pub c17: bool,
     pub c17_counts: crate::c17::Counts,
+    /// free-form counters shown in the evidence (`extra.notes`)
+    pub notes: std::collections::BTreeMap<String, usize>,
 }
 
 impl Ctx {
@@ -346,6 +348,7 @@ impl Ctx {
             nontrivial: 0,
             kinds: Default::default(),
             sizes: [0; 5],
+            notes: Default::default(),
         }
     }
 
@@ -361,6 +364,9 @@ impl Ctx {
     pub fn push_full(&mut self, stream: &str, reg: &PortableRegistry, regjson: Option<&Value>, spec: &SettingsSpec,
                      expect: Option<(String, Vec<u128>)>) {
         let o = observe_tg(reg, spec);
+        if stream.starts_with("fault:") {
+            *self.notes.entry(format!("{stream} expectation {}", expect.as_ref().map(|e| e.0.as_str()).unwrap_or("none"))).or_insert(0) += 1;
+        }
         let term = coq_case(stream, reg, spec, &o, &expect);
         let n = reg.types.len();
         self.sizes[match n { 0..=3 => 0, 4..=10 => 1, 11..=30 => 2, 31..=100 => 3, _ => 4 }] += 1;
@@ -463,7 +469,7 @@ impl Ctx {
         self.meta.evaluations = self.shards.len();
         self.meta.distinct_nontrivial = self.nontrivial;
         self.meta.rule = rule.to_string();
-        self.meta.extra = json!({"generate_outcome_kinds": self.kinds,
+        self.meta.extra = json!({"generate_outcome_kinds": self.kinds, "notes": self.notes,
                                  "registry_size_histogram(0-3,4-10,11-30,31-100,>100)": self.sizes.to_vec()});
         if self.c17 {
             self.meta.extra["retain"] = self.c17_counts.json();
